@@ -124,6 +124,19 @@ fn run_case<G: AffineRepr>(env: &Env<G>, c: &Case) -> CaseOut {
         return o;
     }
     o.count("accepted", 1);
+    if c.seed % 5 == 0 {
+        // the plain `prove` wrapper under the same randomness must give the same proof
+        match crate::interp::cur::prove_plain::<G>(&prog, &env.pc, &bp_p, c.seed ^ 0xabc) {
+            Ok(p2) => {
+                if p2.to_bytes().ok() != proof.to_bytes().ok() {
+                    o.violate("prove-entry-points-disagree", "Prover::prove and prove_and_return_transcript give different proofs under the same randomness", json!({"program": prog}));
+                } else {
+                    o.count("prove == prove_and_return_transcript (bytes)", 1);
+                }
+            }
+            Err(e) => o.violate("prove-entry-points-disagree", format!("Prover::prove fails ({}) where prove_and_return_transcript succeeds", err_name(&e)), json!({"program": prog})),
+        }
+    }
     // cross-oracles localise failures; a disagreement here is C03's (verdict vs relations) or
     // C06/C18's (schedule) subject, so it is recorded and not alarmed in C01
     match &j.refv {
